@@ -277,6 +277,13 @@ impl<'a> Gen<'a> {
         add("zz".to_string());
         // the empty member name: sorts first in a sorted source, sits anywhere in an ordered one
         add(String::new());
+        // names that mean something to other tools (schema annotations, positions)
+        add("$schema".to_string());
+        if rich {
+            add("0".to_string());
+            add("@id".to_string());
+            add("__proto__".to_string());
+        }
         let _ = apply_rename_all;
         u
     }
@@ -297,6 +304,8 @@ impl<'a> Gen<'a> {
             Doc::s("s"),
             Doc::Seq(vec![]),
             Doc::Obj(vec![]),
+            // the empty string: a string like any other (not "nothing", not null)
+            Doc::s(""),
         ]
     }
 
@@ -312,11 +321,14 @@ impl<'a> Gen<'a> {
                 Doc::Int(0),
                 Doc::Int(7),
                 Self::awkward_string(),
+                // strings that spell a number / nothing at all
+                Doc::s("3"),
+                Doc::s(""),
                 // an offending *object* whose member names need JSON escaping when quoted
                 Doc::Obj(vec![("the \"best\"".to_string(), Doc::Int(1)), ("c:\\temp\t".to_string(), Doc::Null)]),
             ]),
             I8 => v.extend([Doc::Int(128), Doc::Neg(-129), Doc::Neg(-128)]),
-            NzU8 => v.extend([Doc::Int(0), Doc::Int(256)]),
+            NzU8 => v.extend([Doc::Int(0), Doc::Int(256), Doc::s("1")]),
             NzI8 => v.extend([Doc::Int(0), Doc::Int(128), Doc::Neg(-129)]),
             Char => v.extend([
                 Doc::s(""),
@@ -330,7 +342,8 @@ impl<'a> Gen<'a> {
             U64 => v.extend([Doc::Int(u64::MAX)]),
             I64 => v.extend([Doc::Int(u64::MAX), Doc::Neg(i64::MIN)]),
             F32 => v.extend([Doc::Float(1e39), Doc::Int(u64::MAX)]),
-            Bool => v.extend([Doc::Bool(false), Self::awkward_string()]),
+            // (strings that spell a boolean are strings)
+            Bool => v.extend([Doc::Bool(false), Self::awkward_string(), Doc::s("true"), Doc::s("false")]),
             Str => v.extend([Doc::s(""), Doc::Str(format!("a{}", "é".repeat(40)))]),
             _ => {}
         }
